@@ -172,7 +172,8 @@ def gen_jobs(tier, seed):
                 calls = [{"pos": [], "kw": {"k": b}} for b in NAMES]
         if shape == 9:
             # the keyword-only parameter under names the generated dispatcher also uses for itself
-            kn = ["k", "HANDLER0", "k", "FALLTHROUGH", "ARG0", "k", "MATCH0", "SUMMATION", "HANDLER", "p1", "p2", "INJECT"][(q // 10) % 12]
+            kn = ["k", "HANDLER0", "k", "FALLTHROUGH", "ARG0", "k", "MATCH0", "SUMMATION", "HANDLER", "p1", "p2", "INJECT",
+                  "len", "isinstance", "bool"][(q // 10) % 15]
             for m in methods:
                 m["kwn"] = [kn for _ in m["kwn"]]
             for c in calls:
